@@ -374,6 +374,98 @@ func (g *gen) genCycleCloser() (Op, bool) {
 	return op, true
 }
 
+// genShadowCycle builds the pattern in which a dependency cycle exists only
+// when every constructor is resolved from its own scope: A (ancestor scope)
+// is missing key K; B (strictly below A) consumes an output of A; K gets a
+// shadowing provider below A; then a constructor that consumes B's output
+// and provides K is exported from B's scope, i.e. lands above A. From B's
+// scope nearest-wins picks the shadow, from the root B is invisible; the run-
+// time graph A -> closer -> B -> A is nevertheless a real cycle.
+func (g *gen) genShadowCycle() ([]Op, bool) {
+	type cand struct {
+		a, b *MFn
+		k    MKey
+	}
+	var cands []cand
+	for _, sc := range g.m.Scopes {
+		for _, a := range sc.Ctors {
+			for _, l := range a.Leaves {
+				if l.IsGroup || g.m.NearestProvider(a.View, l.Key) != nil {
+					continue
+				}
+				for _, sc2 := range g.m.Scopes {
+					for _, b := range sc2.Ctors {
+						if b == a || b.Home == a.View || !g.m.IsAnc(a.View, b.Home) || b.View != b.Home {
+							continue
+						}
+						for _, bl := range b.Leaves {
+							if !bl.IsGroup && a.SlotFor(bl.Key) >= 0 && g.m.NearestProvider(b.View, bl.Key) == a {
+								cands = append(cands, cand{a, b, l.Key})
+							}
+						}
+					}
+				}
+			}
+		}
+	}
+	if len(cands) == 0 {
+		return nil, false
+	}
+	cd := cands[g.pick(len(cands), "shc")]
+	s := cd.b.View
+	var ops []Op
+	// shadowing provider of K in B's scope (unless one exists below A already)
+	shadowed := false
+	for _, a := range g.m.Anc(s) {
+		if a == cd.a.View {
+			break
+		}
+		for _, c := range g.m.Scopes[a].Ctors {
+			if c.SlotFor(cd.k) >= 0 {
+				shadowed = true
+			}
+		}
+	}
+	if !shadowed && g.pct(85, "shadow") {
+		f := g.newFn()
+		rl := rleaf{key: cd.k}
+		if isIface(cd.k.T) {
+			rl.impl = Impls[cd.k.T][0]
+		}
+		f.R = g.encodeResults([]rleaf{rl}, false)
+		op := Op{K: OpProvide, S: s, F: f}
+		mf := NewMFn(f, nil, KCtor, s)
+		if g.m.DupProvide(mf) == "" {
+			g.m.AddCtor(mf)
+		}
+		ops = append(ops, op)
+	}
+	// the exported closer: consumes one of B's single keys, provides K
+	var bk []MKey
+	for _, k := range cd.b.Keys() {
+		if k.Group == "" {
+			bk = append(bk, k)
+		}
+	}
+	if len(bk) == 0 {
+		return nil, false
+	}
+	f := g.newFn()
+	f.P = g.encodeParams([]pleaf{{key: bk[g.pick(len(bk), "shbk")]}})
+	rl := rleaf{key: cd.k}
+	if isIface(cd.k.T) {
+		rl.impl = Impls[cd.k.T][0]
+	}
+	f.R = g.encodeResults([]rleaf{rl}, false)
+	op := Op{K: OpProvide, S: s, F: f, O: &Opts{Export: true}}
+	mf := NewMFn(f, op.O, KCtor, s)
+	if g.m.DupProvide(mf) == "" && !g.m.DigCycle(mf) {
+		g.m.AddCtor(mf)
+	}
+	ops = append(ops, op)
+	return ops, true
+}
+
 // genDupDecorate: a second decorator for an already decorated key, alone or
 // as the 2nd/3rd key of a multi-key decorator.
 func (g *gen) genDupDecorate() (Op, bool) {
